@@ -41,6 +41,7 @@ import (
 	"pgregory.net/rapid"
 
 	"verif/core/hx"
+	"verif/core/kf"
 	"verif/core/model/tunnel"
 	"verif/core/stats"
 )
@@ -824,12 +825,21 @@ func checkMalformed(rec *stats.Recorder, c malformedCase) (string, string) {
 		if len(o.Calls) != 0 {
 			return name, failf("malformed tunnelled request reached resource code: %s (status %d)%s", clipS(hx.J(o.Calls)), o.Status, desc)
 		}
+		if c.Class == "f" && o.Status == http.StatusInternalServerError && strings.Contains(o.Body, "nil pointer dereference") && kf.Open(kfOuterType) {
+			// signature: envelope with an outer Content-Type that is neither form nor multipart/mixed -> recovered nil
+			// dereference in routing (request body left nil), answered 500 instead of 400, no resource code reached
+			rec.Known(kfOuterType, kf.What(kfOuterType), c)
+			return "", ""
+		}
 		if o.Status != http.StatusBadRequest {
 			return name, failf("malformed tunnelled request answered with status %d, want 400; response body %+q%s", o.Status, clipS(o.Body), desc)
 		}
 	}
 	return "", ""
 }
+
+// id under which known_findings.json may list the class-f symptom (not listed = reported as a violation)
+const kfOuterType = "KF-C14-unknown-outer-content-type"
 
 func runMalformed(t *testing.T, class string) {
 	rec := recorder()
@@ -859,14 +869,42 @@ func runMalformed(t *testing.T, class string) {
 	})
 }
 
-func TestC14MalformedControl(t *testing.T)         { runMalformed(t, "control") }
-func TestC14MalformedA_NoQueryPart(t *testing.T)   { runMalformed(t, "a") }
-func TestC14MalformedB_NoBodyPart(t *testing.T)    { runMalformed(t, "b") }
-func TestC14MalformedC_UnknownPart(t *testing.T)   { runMalformed(t, "c") }
-func TestC14MalformedD_URLQuery(t *testing.T)      { runMalformed(t, "d") }
+func TestC14MalformedControl(t *testing.T)           { runMalformed(t, "control") }
+func TestC14MalformedA_NoQueryPart(t *testing.T)     { runMalformed(t, "a") }
+func TestC14MalformedB_NoBodyPart(t *testing.T)      { runMalformed(t, "b") }
+func TestC14MalformedC_UnknownPart(t *testing.T)     { runMalformed(t, "c") }
+func TestC14MalformedD_URLQuery(t *testing.T)        { runMalformed(t, "d") }
 func TestC14MalformedE_BrokenMultipart(t *testing.T) { runMalformed(t, "e") }
-func TestC14MalformedF_OuterType(t *testing.T)     { runMalformed(t, "f") }
-func TestC14MalformedG_NonPost(t *testing.T)       { runMalformed(t, "g") }
+func TestC14MalformedF_OuterType(t *testing.T)       { runMalformed(t, "f") }
+func TestC14MalformedG_NonPost(t *testing.T)         { runMalformed(t, "g") }
+
+var malformedRegress = []malformedCase{
+	{Call: logicalCall{Kind: "get", K: "1", Extra: "s=abc"}, Class: "control", Variant: "wellformed"},
+	{Call: logicalCall{Kind: "update", K: "1", Extra: "s=abc", Body: []byte(`{"s":"v"}`)}, Class: "control", Variant: "wellformed", RealHop: true},
+	{Call: logicalCall{Kind: "update", K: "1", Extra: "s=abc", Body: []byte(`{"s":"v"}`)}, Class: "a", Variant: "only_body_part"},
+	{Call: logicalCall{Kind: "update", K: "1", Extra: "s=abc", Body: []byte(`{"s":"v"}`)}, Class: "b", Variant: "only_query_part"},
+	{Call: logicalCall{Kind: "update", K: "1", Extra: "s=abc", Body: []byte(`{"s":"v"}`)}, Class: "c", Variant: "body_part_as_text_plain"},
+	{Call: logicalCall{Kind: "get", K: "1", Extra: "s=abc"}, Class: "d", Variant: "same_query_in_url"},
+	{Call: logicalCall{Kind: "update", K: "1", Extra: "s=abc", Body: []byte(`{"s":"v"}`)}, Class: "e", Variant: "truncated", Cut: 990},
+	{Call: logicalCall{Kind: "update", K: "1", Extra: "s=abc", Body: []byte(`{"s":"v"}`)}, Class: "e", Variant: "wrong_boundary"},
+	// POST /coll/1 + X-HTTP-Method-Override: GET + Content-Type: text/plain (found by this check: answered 500)
+	{Call: logicalCall{Kind: "get", K: "1", Extra: "s=abc", Strip: true}, Class: "f", Variant: "text_plain"},
+	{Call: logicalCall{Kind: "simple_get", Extra: "s=abc"}, Class: "f", Variant: "missing"},
+	{Call: logicalCall{Kind: "get", K: "1", Extra: "s=abc"}, Class: "g", Variant: "DELETE"},
+}
+
+func TestC14MalformedRegress(t *testing.T) {
+	rec := recorder()
+	if hx.Replaying() {
+		t.Skip()
+	}
+	for i, c := range malformedRegress {
+		if name, msg := checkMalformed(rec, c); msg != "" {
+			rec.Violation(fmt.Sprintf("%s-regress%d", name, i), msg, c)
+			t.Error(msg)
+		}
+	}
+}
 
 func TestC14RouterRegress(t *testing.T) {
 	rec := recorder()
